@@ -12,6 +12,9 @@ mod c05;
 mod c06;
 mod c07;
 mod c08;
+mod c11;
+mod c09;
+mod c10;
 mod c12;
 mod c13;
 mod c14;
@@ -42,6 +45,9 @@ fn gen(prop: &str, seed: u64, n: usize, tier: &str) -> Option<Vec<Case>> {
         "C06" => c06::gen(seed, n, tier),
         "C07" => c07::gen(seed, n, tier),
         "C08" => c08::gen(seed, n, tier),
+        "C11" => c11::gen(seed, n, tier),
+        "C09" => c09::gen(seed, n, tier),
+        "C10" => c10::gen(seed, n, tier),
         "C12" => c12::gen(seed, n, tier),
         "C13" => c13::gen(seed, n, tier),
         "C14" => c14::gen(seed, n, tier),
@@ -64,6 +70,9 @@ fn run(prop: &str, c: &Case) -> Option<Case> {
         "C06" => c06::run(c),
         "C07" => c07::run(c),
         "C08" => c08::run(c),
+        "C11" => c11::run(c),
+        "C09" => c09::run(c),
+        "C10" => c10::run(c),
         "C12" => c12::run(c),
         "C13" => c13::run(c),
         "C14" => c14::run(c),
@@ -82,6 +91,9 @@ fn judge(prop: &str, c: &Case) -> Vec<String> {
         "C03" => c03::judge(c, &c.outs),
         "C04" => c04::judge(c, &c.outs),
         "C06" => c06::judge(c, &c.outs),
+        "C11" => c11::judge(c, &c.outs),
+        "C09" => c09::judge(c, &c.outs),
+        "C10" => c10::judge(c, &c.outs),
         "C12" => c12::judge(c, &c.outs),
         "C13" => c13::judge(c, &c.outs),
         "C14" => c14::judge(c, &c.outs),
@@ -102,7 +114,9 @@ fn main() {
     let n: usize = arg(&args, "--n", "100").parse().unwrap_or(100);
     let tier = arg(&args, "--tier", "quick");
     std::panic::set_hook(Box::new(|_| {}));
-    let out = io::stdout(); let mut w = BufWriter::new(out.lock());
+    // rdb.rs prints with println!: C09/C10 write the case stream to a duplicate of fd 1
+    let mut w: Box<dyn Write> = if prop == "C09" || prop == "C10" { Box::new(BufWriter::new(c09::quiet_stdout())) }
+        else { Box::new(BufWriter::new(io::stdout())) };
     match mode {
         "gen" => {
             let cases = gen(prop, seed, n, &tier).unwrap_or_else(|| { eprintln!("no generator for {}", prop); std::process::exit(2) });
